@@ -142,7 +142,7 @@ def jobs_for(tier, seed):
     jobs = []
     seen = set()
     lim_small = 19
-    lim_big = 27 if tier == "quick" else 40
+    lim_big = 27 if tier == "quick" else 33
     nbig = 0
     for (s, m), sz in zip(cands, sized):
         for idx, (n, key) in enumerate(sz.get("sizes", [])):
@@ -152,7 +152,7 @@ def jobs_for(tier, seed):
             j = {"spec": s, "metrics": m, "idx": idx, "name": s["name"]}
             if n <= lim_small:
                 j["timeout"] = 120 if tier == "quick" else 600
-            elif n <= lim_big and (tier == "thorough" or nbig < 8):
+            elif n <= lim_big and nbig < (8 if tier == "quick" else 24):
                 nbig += 1
                 j["timeout"] = 200 if tier == "quick" else 900
             else:
